@@ -623,6 +623,16 @@ class VerifyTask:
             st.oblige(f"{self.name}/class-inv@exit", inv(self_obj), "invariant")
 
     def defcls(self):
+        # `defcls=` of the contract: the REAL class whose body defines the target, for a class created inside a function
+        # call (`delegate_to_widget_mixin(name).<locals>.DelegateToWidgetMixin`): such a class is not reachable by
+        # attribute access from its module, and each call of the factory makes another one with its own closure cells
+        # (Frame._real_closure_cell reads them from this class).  The contract must name the class it means; that the
+        # named class really is made from the target's source text is checked here (qualified name and module).
+        given = getattr(self.c, "defcls", None)
+        if given is not None:
+            if given.__qualname__ != self.ref.cls_qual or SRC.module_of_real(given.__module__) is not self.ref.mod:
+                raise Unsupported(f"defcls {given!r} is not the class {self.ref.cls_qual} of {self.ref.mod.relpath}")
+            return given
         if self.ref.cls_qual:
             return SRC.real_class(self.ref.mod, self.ref.cls_qual)
         return None
